@@ -7,7 +7,7 @@
 (* defines (ret is a SET here because the order of results is not part of  *)
 (* any property).                                                          *)
 (***************************************************************************)
-EXTENDS Scopes, Clone
+EXTENDS Scopes, Compare
 
 (* roots of a hierarchical query *)
 RootN(n)        == [t |-> "N", id |-> n]
@@ -76,6 +76,7 @@ ApplyX(s, c) ==
              IF ~(c.n \in IdsN(s)) \/ s.nlTop[c.n] = None \/ s.instRef[s.nlTop[c.n]] = None THEN Refuse(s)
              ELSE Ok(IF c.op = "uniquify" THEN Uniquify(s, c.n) ELSE Flatten(s, c.n))
       [] c.op = "q" -> [s |-> s, out |-> "ok", ret |-> <<>>]
+      [] c.op = "compare" -> [s |-> s, out |-> "ok", ret |-> <<Differs(s, c.a, c.b)>>]
       [] c.op = "clone" ->
              IF ~Exists(s, c.kind, c.x) THEN Refuse(s)
              ELSE LET r == CloneOf(s, c.kind, c.x) IN OkRet(r.s, <<r.root>>)
